@@ -482,6 +482,45 @@ def r9_nolock_user(ctx, prog):
                            mutex not in ls, 'locks held here: {%s}' % ','.join(sorted(x.split('::')[-1] for x in ls)), where=f.loc(st['i']))
 
 
+def r11_retire_atomic(ctx, prog):
+    ctx.rule('C05.R11', 'A3: the live-worker count that execute() consults is exact: a pool worker that decides to retire (it will take no more tasks) leaves threads_cabinet in '
+             'the critical section in which it took that decision — otherwise an execute() in between still counts it, creates no worker and wakes nobody, and the '
+             'accepted task has no thread to run it', floor=1)
+    cls = [c for c, info in CLASSES.items() if not info['thread_field']]
+    if not cls:
+        raise AnalysisBroken('pool class not found')
+    cls = cls[0]
+    eng, w = _worker_ctx(prog, cls)
+    mutex = cls + '::Data::lock'
+    frees = [st for st in w.stmts if st and q.is_call(st, fn='free', cls='tbox::cabinet::Cabinet<std::thread>')]
+    if not frees:
+        raise AnalysisBroken('%s::threadProc: threads_cabinet.free not found' % cls)
+    # the retire decision: the branch whose condition compares threads_cabinet.size() with min_thread_num
+    decs = []
+    for b in w.cfg.blocks.values():
+        if b.cond is not None and any(x.endswith('min_thread_num') for x in q.subtree_fields(w, b.cond)):
+            decs.append(w.cfg.point_of(b.cond))
+    if not decs:
+        raise AnalysisBroken('%s::threadProc: retire decision (threads_cabinet.size() > min_thread_num) not found' % cls)
+    res = eng.analyze(w, frozenset())
+    mname = [m for m in (res.get(decs[0]) or ())]
+    mtx = next((m for m in mname if m.endswith('::lock')), None)
+    for fr in frees:
+        ok = False
+        why = 'the decision is not taken under Data::lock'
+        if mtx:
+            for d in decs:
+                if not w.cfg.exists_path(d, q.pt(w, fr)):
+                    continue
+                ok, bad = q.region_atomic(eng, w, frozenset(), d, q.pt(w, fr), mtx)
+                why = None if ok else 'Data::lock is released at %s between the retire decision and the removal from threads_cabinet' % (
+                    w.loc(w.cfg.blocks[bad[0]].el[min(bad[1], len(w.cfg.blocks[bad[0]].el) - 1)][1]) if bad and w.cfg.blocks[bad[0]].el else '?')
+        ctx.ob('C05.R11', '%s|retire-atomic' % w.name, ok,
+               'retire decision and threads_cabinet.free() are one critical section' if ok else
+               '%s: an execute() in that window sees threads_cabinet.size() == max, creates no worker and notifies nobody; the task waits until some later execute()' % why,
+               where=w.loc(fr['i']))
+
+
 def run(ctx):
     prog = extract('ALL' if ctx.tier == 'thorough' else SCOPE)
     ctx.guard(r1_races, ctx, prog)
@@ -493,4 +532,5 @@ def run(ctx):
     ctx.guard(r7_bound, ctx, prog)
     ctx.guard(r9_nolock_user, ctx, prog)
     ctx.guard(r10_idle_counter, ctx, prog)
+    ctx.guard(r11_retire_atomic, ctx, prog)
     return prog
